@@ -2,6 +2,7 @@ package props
 
 import (
 	"fmt"
+	"runtime"
 	"strings"
 	"sync"
 
@@ -82,7 +83,7 @@ func init() {
 		ID:    "C09",
 		Level: "exploration",
 		Rule: "phase 0 (exhaustive): every sequence of up to L building operations (L=3 quick, L=5 thorough) over the 13-operation alphabet {AddHeaders(0|1|2 items), AddRowItems(0|1|3), AddSeparator, AppendNewRow, Add on the last row handle, AddRow(prebuilt 0|2 cells), Add on AllRows()[last] (possibly a separator), AddRow(NewRowSizedFor+1)} crossed with 6 item flavours (plain, multi-line, declared size below/above actual, unicode/invalid, empty/nil/rune), each table then put under one of five legal configurations (none; default right; default centre; two columns right/centre; left + centre + skipable default + last column right); " +
-			"phase 1 (exhaustive): all sequences of length L+1 for the flavour whose items declare less than they have (and, in quick, the plain flavour); phase 2: random sequences of up to 40 operations with items from the whole item zoo, one item in 15 being an item that holds a table of its own and renders it (as text from String, as JSON from MarshalJSON) when the outer table is rendered. Every resulting table is rendered through csv/html/json/markdown wrappers, a text wrapper under every registered decoration (the six built-ins plus one complete and seven partially filled, never Populate()d decorations registered by the check), and (for every 8th sequence of the exhaustive phases and all random ones) auto.Render for every listed style, under a panic guard; all routes render the same table object one after the other in an order that varies from case to case. " +
+			"phase 1 (exhaustive): all sequences of length L+1 for the flavour whose items declare less than they have (and, in quick, the plain flavour); phase 3: tables of 150-2100 rows (separators, empty and ragged rows, one of the six item flavours) rendered through all routes while runtime.GOMAXPROCS is 1, 2, 3 or the number of CPUs; phase 2: random sequences of up to 40 operations with items from the whole item zoo, one item in 15 being an item that holds a table of its own and renders it (as text from String, as JSON from MarshalJSON) when the outer table is rendered. Every resulting table is rendered through csv/html/json/markdown wrappers, a text wrapper under every registered decoration (the six built-ins plus one complete and seven partially filled, never Populate()d decorations registered by the check), and (for every 8th sequence of the exhaustive phases and all random ones) auto.Render for every listed style, under a panic guard; all routes render the same table object one after the other in an order that varies from case to case. " +
 			"Distinct = distinct (sequence, flavour) pairs; non-trivial = the table has at least one row or header.",
 		Assumptions: []string{
 			"tables are built through the public building API only (custom Table implementations that misreport NColumns are outside the statement)",
@@ -111,6 +112,7 @@ func init() {
 					}
 				}},
 			{Name: "random sequences up to 40 operations, whole item zoo", N: Fixed(3000, 300000), Run: c09Random},
+			{Name: "long tables (150-2100 rows) while the program runs with GOMAXPROCS set to 1, 2, 3 and the number of CPUs", N: Fixed(48, 480), Run: c09Long},
 		},
 	})
 }
@@ -257,6 +259,63 @@ func c09Random(c *Ctx, i int, r *gen.R) {
 	desc["configuration"] = c09Configure(b.t, r.Intn(len(c09ConfigNames)))
 	c.Rec.Eval(gen.Hash64(fmt.Sprint(seq), fmt.Sprint(len(specs))), true)
 	c09RenderAll(c, b.t, desc, true, r.Uint64())
+}
+
+// c09Long: tables far longer than anything the other phases build, rendered while the program has the Go
+// scheduler set to one, two, three or all processors (runtime.GOMAXPROCS is a setting any program may make, and
+// GOMAXPROCS=1 is what a container with one CPU share gives): totality is claimed for every table whatever the
+// process it is rendered in looks like.
+func c09Long(c *Ctx, i int, r *gen.R) {
+	sizes := []int{150, 191, 192, 193, 256, 300, 511, 512, 513, 1000, 1500, 2100}
+	nrows := sizes[i%len(sizes)]
+	procs := []int{1, 2, 3, runtime.NumCPU()}[(i/len(sizes))%4]
+	fl := c09Flavours[r.Intn(len(c09Flavours))]
+	ncols := r.Range(1, 4)
+	desc := map[string]interface{}{"rows": nrows, "columns": ncols, "flavour": fl.name, "GOMAXPROCS_during_the_renders": procs, "NumCPU": runtime.NumCPU()}
+	c.Case = desc
+	k := 0
+	next := func() interface{} {
+		it := fl.items[k%len(fl.items)].Make().Item
+		k++
+		return it
+	}
+	t := tabular.New()
+	if r.Chance(3, 4) {
+		hs := make([]interface{}, ncols)
+		for j := range hs {
+			hs[j] = fmt.Sprintf("h%d", j)
+		}
+		t.AddHeaders(hs...)
+	}
+	for n := 0; n < nrows; n++ {
+		switch {
+		case r.Chance(1, 40):
+			t.AddSeparator()
+		case r.Chance(1, 30):
+			t.AddRowItems()
+		default:
+			m := ncols
+			if r.Chance(1, 10) {
+				m = r.Range(0, ncols+1)
+			}
+			its := make([]interface{}, m)
+			for j := range its {
+				if r.Chance(1, 3) {
+					its[j] = next()
+				} else {
+					its[j] = n*10 + j
+				}
+			}
+			t.AddRowItems(its...)
+		}
+	}
+	desc["configuration"] = c09Configure(t, r.Intn(len(c09ConfigNames)))
+	c.Rec.Eval(gen.Hash64("long", fmt.Sprint(nrows, procs, fl.name, ncols)), true)
+	c.Rec.Count(fmt.Sprintf("detail:long_tables_rendered_with_GOMAXPROCS=%d", procs), 1)
+	c.Rec.Max("max:rows_in_one_table", int64(nrows))
+	old := runtime.GOMAXPROCS(procs)
+	defer runtime.GOMAXPROCS(old)
+	c09RenderAll(c, t, desc, i%4 == 0, r.Uint64())
 }
 
 var c09RegisterOnce sync.Once
